@@ -28,7 +28,7 @@ class Monitor(object):
             held = set(id(s.cust) for s in node.servers if s.cust)
             return [i for i in node.all_individuals if id(i) not in held and not i.interrupted and i is not exclude]
         if kind == "slotted":
-            return [i for i in node.all_individuals if not i.server and not i.interrupted and i is not exclude]
+            return [i for i in node.all_individuals if not i.server and i is not exclude]
         return []
 
     def on_pre_event(self, node, et):
